@@ -146,16 +146,43 @@ def check_case(case):
                     "%r -> %s: %s" % (xa, type(e).__name__, str(e)[:200]))
         if sa_ != sb_:
             return ("%s:sql-depends-on-values" % name, "%r -> %s\n%r -> %s" % (xa, sa_, xb, sb_))
-        for holes, sql, params, text in ((ha, sa_, pa, xa), (hb, sb_, pb, xb)):
+        for holes, sql, params, text, filled in ((ha, sa_, pa, xa, ta), (hb, sb_, pb, xb, tb)):
             ptxt = [str(p) for p in params]
+            marker_value = {}
+            for x in walk(filled):
+                if x[0] == "lit" and x[1] in ("int", "float"):
+                    for kind_, m_ in holes:
+                        if kind_ == x[1] and x[2].startswith(m_):
+                            marker_value[(text, m_)] = float(x[2])
             for kind, marker in holes:
                 if marker in sql:
                     return ("%s:value-in-sql-text:%s" % (name, kind), "%r: value %r appears in SQL %s" % (text, marker, sql))
                 # (an ORM may fold constant sub-conditions away, so a value need not reach the
                 # parameter list; how many do is measured, not asserted)
-                key = "_in_params" if any(marker in p for p in ptxt) else "_folded_away"
+                reached = any(marker in p for p in ptxt) or (kind in ("int", "float") and _num_reaches(marker_value.get((text, marker)), params))
+                key = "_in_params" if reached else "_folded_away"
                 case[key] = case.get(key, 0) + 1
+                if not reached and name.startswith("sqlalchemy"):
+                    # SQLAlchemy folds nothing away: a value that is in neither the SQL text nor the parameters
+                    # has been lost or replaced on the way
+                    return ("%s:value-reaches-neither-sql-nor-parameters:%s" % (name, kind),
+                            "%r: value %r not among the parameters %r of %s" % (text, marker, ptxt[:12], sql))
     return None
+
+
+def _num_reaches(v, params):
+    if v is None:
+        return False
+    flat = []
+    for p in params:
+        flat.extend(p if isinstance(p, (list, tuple)) else [p])
+    for p in flat:
+        try:
+            if not isinstance(p, bool) and float(p) == v:
+                return True
+        except (TypeError, ValueError, OverflowError):
+            pass
+    return False
 
 
 def replay(case):
